@@ -1,8 +1,142 @@
 import PyPhysim.Model.Proto
-open PyPhysim.Proto
+import PyPhysim.Model.C05
+open PyPhysim.Proto PyPhysim.C05
 
--- stub: replaced when the C05 model is written
+/-!
+Line-protocol driver of the C05 model.
+
+`sim names=b,a vals=1,2|5,6,7 repmax=4 file=1 keep=always;sumlt:5 ops=all,single:3 outs=5,s,-2 look=a:5/b:1,a:6`
+   one runner, a history of `simulate()` calls, one global stream of outcomes.
+`grid names=b,a vals=1,2|5,6,7 fixed=a:5/b:1`
+   unpack order and `get_pack_indexes` alone.
+-/
+
+/-- concrete results used by the harness script: a SUMTYPE result (value, sum of
+    squares, num_updates), a RATIOTYPE result (value, total, num_updates), a
+    MISCTYPE result and a SUMTYPE "token" result (2^call, exact Python int) -/
+structure Res where
+  sum : Int
+  sq : Int
+  n : Nat
+  rv : Int
+  rt : Int
+  rn : Nat
+  misc : Int
+  tok : Nat
+
+def Res.merge (a b : Res) : Res :=
+  ⟨a.sum + b.sum, a.sq + b.sq, a.n + b.n, a.rv + b.rv, a.rt + b.rt, a.rn + b.rn, b.misc, a.tok + b.tok⟩
+
+/-- what the scripted `_run_simulation` returns for value `a` at stream position `c` -/
+def Res.ofCall (a : Int) (c : Nat) : Res :=
+  ⟨a, a * a, 1, (a.natAbs % 5 : Nat), 8, 1, a, 2 ^ c⟩
+
+def Res.show (r : Res) : String :=
+  s!"{r.sum}/{r.sq}/{r.n}/{r.rv}/{r.rt}/{r.rn}/{r.misc}/{r.tok}"
+
+def parseOuts (s : String) : Option (List (Outcome Res)) :=
+  (fields s ",").zipIdx.mapM (fun (t, c) =>
+    if t = "s" then some Outcome.skip else t.toInt?.map (fun a => Outcome.ok (Res.ofCall a c)))
+
+/-- one `_keep_going` rule -/
+def parseRule (s : String) : Option (Keep Res) :=
+  match s.splitOn ":" with
+  | ["always"] => some (fun _ _ _ => true)
+  | ["sumlt", t] => t.toInt?.map (fun t => fun acc _ _ => decide (acc.sum < t))
+  | ["replt", k] => k.toNat?.map (fun k => fun _ _ r => decide (r < k))
+  | ["skiplt", k] => k.toNat?.map (fun k => fun _ sk _ => decide (sk < k))
+  | ["tbl", m, n, bits] => do
+      let m ← m.toNat?
+      let n ← n.toNat?
+      if m = 0 ∨ n = 0 then none else
+      let bs := bits.toList
+      some (fun acc _ r =>
+        let i := (acc.sum % (m : Int)).toNat * n + r % n
+        bs.getD i '0' == '1')
+  | _ => none
+
+def parseKeep (s : String) : Option (Nat → Keep Res) := do
+  let rules ← (fields s ";").mapM parseRule
+  if rules.isEmpty then none else
+  some (fun i => rules.getD (i % rules.length) (fun _ _ _ => true))
+
+def parseParams (names vals : String) : Option (List (Param Int)) := do
+  let ns := fields names ","
+  let vs ← (if ns.isEmpty then some [] else (vals.splitOn "|").mapM (fun v => parseIntList? v))
+  if ns.length ≠ vs.length then none else some (ns.zip vs)
+
+def parseFixed (s : String) : Option (List (String × Int)) :=
+  (fields s ",").mapM (fun t =>
+    match t.splitOn ":" with
+    | [k, v] => v.toInt?.map (fun v => (k, v))
+    | _ => none)
+
+inductive Op | all | single (i : Int)
+
+def parseOps (s : String) : Option (List Op) :=
+  (fields s ",").mapM (fun t =>
+    match t.splitOn ":" with
+    | ["all"] => some Op.all
+    | ["single", i] => i.toInt?.map Op.single
+    | _ => none)
+
+def showReps : Reps → String
+  | .list l => "L:" ++ showList toString l
+  | .single n => "S:" ++ toString n
+
+def showStatus : Option Err → String
+  | none => "ok"
+  | some e => toString e
+
+def insertSorted (p : Nat × Saved Res) : List (Nat × Saved Res) → List (Nat × Saved Res)
+  | [] => [p]
+  | q :: qs => if p.1 ≤ q.1 then p :: q :: qs else q :: insertSorted p qs
+
+def showEnd (unpacked : Bool) (e : SimEnd Res) : String :=
+  let idx (i : Nat) : String := if unpacked then toString i else "-1"
+  let res := showList (fun (s : Stored Res) => s.acc.show ++ "/" ++ toString s.skipped) e.runner.results "|"
+  let store := showList (fun (p : Nat × Saved Res) =>
+      s!"{idx p.1}:{p.2.rep}:{p.2.skipped}:{p.2.acc.show}") (e.runner.store.foldr insertSorted []) "|"
+  let rr := match e.runner.resultsReps with | none => "none" | some r => showReps r
+  s!"st={showStatus e.status} log={showList idx e.log} reps={showReps e.runner.reps} rr={rr} res={res} store={store}"
+
+def runOps (cfg : Cfg Res) : List Op → Runner Res → List (Outcome Res) → List String → List String × Runner Res
+  | [], r, _, acc => (acc.reverse, r)
+  | op :: ops, r, outs, acc =>
+    let e := match op with
+      | .all => simulateAll cfg r outs
+      | .single i => simulateSingle cfg r i outs
+    runOps cfg ops e.runner e.rest (showEnd (!cfg.dims.isEmpty) e :: acc)
+
+def showPack {X} (f : X → String) : Except Err (List X) → String
+  | .ok l => showList f l
+  | .error e => "error:" ++ toString e
+
+def handleSim (toks : List String) : Option String := do
+  let ps ← parseParams ((kv toks "names").getD "") ((kv toks "vals").getD "")
+  let repMax ← (kv toks "repmax").bind String.toNat?
+  let file := (kv toks "file").getD "0" == "1"
+  let keep ← parseKeep ((kv toks "keep").getD "always")
+  let ops ← parseOps ((kv toks "ops").getD "all")
+  let outs ← parseOuts ((kv toks "outs").getD "")
+  let looks ← (fields ((kv toks "look").getD "") "/").mapM parseFixed
+  let cfg : Cfg Res := ⟨Res.merge, repMax, dimsOf ps, keep⟩
+  let (lines, r) := runOps cfg ops (Runner.new file) outs []
+  let lk := looks.map (fun fx =>
+    showPack (fun (s : Stored Res) => toString s.acc.tok) (resultValues ps r.results fx))
+  some (" ; ".intercalate lines ++ " ; look=" ++ "/".intercalate lk)
+
+def handleGrid (toks : List String) : Option String := do
+  let ps ← parseParams ((kv toks "names").getD "") ((kv toks "vals").getD "")
+  let looks ← (fields ((kv toks "fixed").getD "") "/").mapM parseFixed
+  let sp := sortParams ps
+  let cs := showList (fun (c : List Int) => showList toString c ".") (combos ps) "|"
+  let pk := looks.map (fun fx => showPack toString (packIndexes ps fx))
+  some s!"order={showList (·.1) sp} n={prod (dimsOf ps)} nc={(combos ps).length} combos={cs} pack={"/".intercalate pk}"
+
 def handle : List String → String
+  | "sim" :: toks => (handleSim toks).getD "bad-op"
+  | "grid" :: toks => (handleGrid toks).getD "bad-op"
   | _ => "bad-op"
 
 def main : IO Unit := runDriver handle
